@@ -19,6 +19,15 @@ helper `venv0` is really spawned with it, or the whole `run_subproc` path is run
 received is read back.  Oracle: the mapping equals {k: reference_string(model[k])} for the model state at
 launch time, str -> str only, masked and untranslatable names absent.  With $UPDATE_OS_ENVIRON (a mode chosen
 per history) os.environ must equal the same mapping.
+
+Recorded findings (narrow predicates: classify_a for part A, History.observe / op_launch for part B; every
+tolerated occurrence is counted in excluded_known):
+ F1 stale mapping after an edit through a held reference    F2 detype cache shared between threads (= C11-F7)
+ F3 alias overlay values not converted                      F4 $ENABLE_COMMANDS_CACHE untyped
+ F5 VarPattern / None exported as repr, nested xonsh dies   F6 Token-keyed style dicts do not come back
+ F7 callables / classes exported as '<function ...>'        F8 `$X=@([]) cmd` IndexError
+ F9 per-command overlay loses against the alias overlay     F10 detype() hands out its cache object
+ F11 `del` after a swap of a set variable does not delete (consequence of C11-F2)
 """
 
 from __future__ import annotations
@@ -47,6 +56,9 @@ RULE = ("part A: (variable name, valid typed value) for every DEFAULT_VARS entry
         "detype(); distinct = hash of the operation history")
 
 F1, F2, F3, F4, F5, F6, F7, F8, F9, F10, F11 = ("C10-F%d" % i for i in range(1, 12))
+# the same root cause is already recorded under C11 (scoped changes): while that entry is open the shape is
+# skipped and counted here, not reported a second time (it becomes a C10 violation again once C11's entry is closed)
+XREF = {F2: "C11-F7", F11: "C11-F2"}
 POLLUTE_KEY = "GIT_OPTIONAL_LOCKS"      # the name prompt/gitstatus.py writes into the mapping it got from detype()
 
 TRIVIAL_KINDS = {"str", "str_or_callable", "anystr", "regex", "backend", "untyped", "compdisplay", "compmode",
@@ -781,7 +793,7 @@ class History:
         kv = {}
         for k, spec in op["kv"].items():
             if not self.is_set(k) and self.effective(k) is not MASK and self.has_default(k):
-                self.labels["skipped:swap-of-unset-default(C11)"] += 1
+                self.labels["skipped:swap-of-unset-default(C11-F1)"] += 1
                 continue            # leaves the default *set* afterwards: recorded under C11, not here
             if self.in_overlay(k):
                 continue            # precedence of a swap inside an alias overlay: two readings in the docs
@@ -895,7 +907,7 @@ class History:
             if kind is None:
                 continue
             if not self.is_set(k) and self.effective(k) is not MASK and self.has_default(k):
-                self.labels["skipped:swap-of-unset-default(C11)"] += 1
+                self.labels["skipped:swap-of-unset-default(C11-F1)"] += 1
                 continue
             if self.in_overlay(k):
                 if F9 in self.open_ids:
@@ -1421,18 +1433,33 @@ def main(run):
         res = common.pool_map(run, __name__, "worker_replay", [cases], procs=1)
         for c, r in zip(cases, res[0]["results"]):
             cache[json.dumps(c, sort_keys=True)] = None if r is None else Failure.from_json(r)
-    common.replay_tier(run, lambda case: cache[json.dumps(case, sort_keys=True)])
+    c11_open = {e["id"] for e in common.load_known("C11") if e.get("status") == "open"}
+    own_ids = {e["id"] for e in run.known}
+    xref_open = {own for own, other in XREF.items() if other in c11_open and own not in own_ids}
 
-    open_ids = sorted(run.known_open)
+    def replayed(case):
+        f = cache[json.dumps(case, sort_keys=True)]
+        if f is not None and f.finding in xref_open:
+            run.stats.hist["skipped:recorded-as-%s" % XREF[f.finding]] += 1
+            return None
+        return f
+
+    common.replay_tier(run, replayed)
+
+    open_ids = sorted(set(run.known_open) | xref_open)
     nw = 8 if run.tier == "quick" else 16
     per_var = run.n(100, 2500)
     common.pool_map(run, __name__, "worker_a", [(run.seed, per_var, w, nw, open_ids) for w in range(nw)], procs=nw)
-    total = run.n(4000, 200000)
+    total = run.n(6000, 200000)
     steps = run.n(30, 40)
     common.pool_map(run, __name__, "worker_machine",
                     [(common.worker_seed(run.seed, 1000 + w), total // nw, steps, open_ids) for w in range(nw)],
                     procs=nw)
     h = run.stats.hist
+    for fid in xref_open:
+        n = run.stats.excluded_known.pop(fid, 0)
+        if n:
+            h["skipped:recorded-as-%s" % XREF[fid]] += n
     run.extra["steps_executed"] = h.get("B:steps", 0)
     launches = sum(v for k, v in h.items() if k.startswith("B:launch:"))
     run.extra["launches"] = launches
